@@ -676,7 +676,7 @@ Theorem C06_grid_engine_instance :
       (ab_lines r c (style_of (GStyle T) (GIn T) (LayoutOutput T) (GLay T) t) = false -> gout_eq o o').
 Proof.
   intros T N sel leaf r c mode in_eqb is_none hidden_out zero_lay algo f f' t t' i o t1 o' t1' Hs E E'.
-  eapply (C06_abs_blind_engine (GStyle T) (GIn T) (LayoutOutput T) (GLay T) mode in_eqb is_none hidden_out zero_lay algo
+  eapply (C06_abs_blind_engine_partial (GStyle T) (GIn T) (LayoutOutput T) (GLay T) mode in_eqb is_none hidden_out zero_lay algo
             (ab_lines r c) gout_eq glay_eq); eauto.
   - apply gout_eq_refl.
   - apply glay_eq_refl.
